@@ -259,6 +259,12 @@ class gclmulchunker(ChunkerAdapter):
     alignment = 4
 
     def __init__(self, *, min_length=MIN_LENGTH, max_length=MAX_LENGTH):
+        if not isinstance(min_length, int) or not isinstance(max_length, int):
+            raise ValueError('Chunk lengths must be integers')
+
+        if min_length < 0 or max_length < 1:
+            raise ValueError('Chunk lengths must be positive')
+
         if min_length > max_length:
             raise ValueError(
                 f'Minimum length ({min_length}) is greater '
